@@ -49,6 +49,33 @@ def generate(kind, outdir):
         if not done:
             raise RuntimeError("no file could be instrumented")
         notes["overlay_instrumented"] = ",".join(done)
+    elif kind == "net":
+        # one-token redirection of the dial seam: tls.Dial( -> verifDial(, plus an added file that
+        # defines verifDial (falls back to tls.Dial unless the harness installs VerifDial)
+        path = os.path.join(REPO, "net/net.go")
+        src = open(path).read()
+        if src.count("tls.Dial(") != 1:
+            raise RuntimeError("expected exactly one tls.Dial( in net/net.go, found %d" % src.count("tls.Dial("))
+        dst = os.path.join(outdir, "net__net.go")
+        open(dst, "w").write(src.replace("tls.Dial(", "verifDial("))
+        replace[path] = dst
+        add = os.path.join(outdir, "net__verif_dial.go")
+        open(add, "w").write("""package net
+
+import "crypto/tls"
+
+// VerifDial, when set by the verification harness, replaces tls.Dial (in-memory transport).
+var VerifDial func(network, addr string, cfg *tls.Config) (*tls.Conn, error)
+
+func verifDial(network, addr string, cfg *tls.Config) (*tls.Conn, error) {
+	if VerifDial != nil {
+		return VerifDial(network, addr, cfg)
+	}
+	return tls.Dial(network, addr, cfg)
+}
+""")
+        replace[os.path.join(REPO, "net/verif_dial.go")] = add
+        notes["overlay_net"] = "tls.Dial redirected"
     else:
         raise RuntimeError("unknown overlay kind %r" % kind)
     oj = os.path.join(outdir, "overlay.json")
